@@ -99,7 +99,7 @@ fn gen(t: &mut Tape, _tier: Tier) -> Scenario {
                 input.extend_from_slice(&e);
                 note = "header announcing a 4 GiB dictionary and 2^63 bytes".to_string();
             } else {
-                let b = if src == 3 { gen_long_symbol(t, 0) } else { gen_lzma(t, 0, 3000) };
+                let b = if src == 3 { gen_long(t, 0) } else { gen_lzma(t, 0, 3000) };
                 input = if ep == EP_RAW_LZMA { b.payload.clone() } else { b.std_file() };
                 raw = RawSpec {
                     lc: b.props.lc,
